@@ -429,7 +429,10 @@ pub fn require_not_restriction_mode(
     let position = read_position(storage, vamm, trader).unwrap();
 
     // a position closed or liquidated in this block leaves no record, but was updated in it
-    let updated_in_block = position.block_number == block_height
+    // (a record reached under a colliding key is somebody else's and says nothing about this trader)
+    let updated_in_block = (position.block_number == block_height
+        && position.vamm == *vamm
+        && position.trader == *trader)
         || read_last_removal_block(storage, vamm, trader) == block_height;
 
     if vamm_map.last_restriction_block == block_height && updated_in_block {
